@@ -459,6 +459,14 @@ def _nontrivial(snaps):
     return any(2 in s[1] and 1 in s[1] for s in snaps)
 
 
+def _queue_cancel(a, statuses):
+    """cancellation of a task that waits in the lock queue.  asyncio.Lock (CPython) lets a newcomer in while every queued
+    waiter is cancelled but not yet removed, FairLock does not: when something else happens in that window the two locks
+    legitimately serve the senders in different orders.  For the objects using asyncio.Lock such a cancellation is
+    therefore always run to quiescence on its own; the FairLock objects explore the window exhaustively."""
+    return a[0] == A_CANCEL and statuses[a[1]] == 1
+
+
 def _dfs(kind, progs, max_actions, batch2, budget):
     """breadth-first: ALL scripts of at most max_actions non-loop actions (complete up to the length reached when the
     budget runs out); each step = one enabled action + settle, or (batch2) an ordered pair of enabled actions on
@@ -476,7 +484,10 @@ def _dfs(kind, progs, max_actions, batch2, budget):
             if batch2 and used + 2 <= max_actions:
                 for a, b in itertools.permutations(en, 2):
                     if a[1] != b[1]:
-                        steps.append([a, b, [A_TICK], [A_SETTLE]] if kind in TICK_KINDS else [a, b, [A_SETTLE]])
+                        if kind in TICK_KINDS:
+                            steps.append([a, b, [A_TICK], [A_SETTLE]])
+                        elif not _queue_cancel(a, statuses) and not _queue_cancel(b, statuses):
+                            steps.append([a, b, [A_SETTLE]])
             for step in steps:
                 acts2 = acts + step
                 snaps, _ = execute(kind, progs, acts2)
@@ -505,6 +516,10 @@ def _random_script(kind, progs, rng, rounds):
                 used.add(a[1])
         if not batch:
             batch = [rng.choice(en)]
+        if kind not in TICK_KINDS:
+            alone = [a for a in batch if _queue_cancel(a, statuses)]
+            if alone:
+                batch = alone[:1]
         acts += batch
         if kind in TICK_KINDS:
             acts += rng.choice([[[A_SETTLE]], [[A_TICK]], [[A_TICK], [A_SETTLE]], [[A_TICK], [A_TICK]]])
